@@ -3,7 +3,7 @@
 
    PART 1 (declarative, written from the trustless-gateway specification / IPIP-402 and the
    UnixFS data model, independent of the Go code): for a UnixFS DAG, a content path, a
-   dag-scope, an entity-bytes range and a dups flag, which blocks does a client NEED in order
+   dag-scope, an entity-bytes range and a duplicates policy, which blocks does a client NEED in order
    to verify the path traversal (PathBlocks) and the requested scope (ScopeBlocks)?
 
    PART 2 (operational, the as-built algorithm of gateway/backend_blocks.go GetCAR +
@@ -229,10 +229,22 @@ Rng(f, star, t) == [has |-> TRUE, from |-> f, star |-> star, to |-> t]
 RangesFor(S) == {NoRange, Rng(0, TRUE, 0), Rng(0, FALSE, 0), Rng(1, FALSE, 1), Rng(-1, TRUE, 0),
                  Rng(-2, FALSE, -1), Rng(0, FALSE, S), Rng(S, TRUE, 0), Rng(S + 1, TRUE, 0),
                  Rng(1, FALSE, -1)}
+\* duplicates policy of a request (IPIP-412): "y" = duplicates explicitly requested, "n" = explicitly
+\* refused, "unspec" = nothing stated (HTTP: no dups / car-dups parameter at all; API: the zero value of
+\* CarParams.Duplicates).  Duplicate blocks may appear ONLY for "y".
+Policies == {"y", "n", "unspec"}
+\* how the request reaches GetCAR: "http" = through gateway.NewHandler (Accept / URL parameters),
+\* "api" = a direct call of the trustless backend interface IPFSBackend.GetCAR(path, CarParams)
+Vias == {"http", "api"}
+\* PART 2: the policy GetCAR sees (the HTTP handler turns "unspec" into "n"; an API caller passes it as is)
+\* and what the CAR writer does with it (DuplicateBlocksPolicy.Bool(): only "y" keeps repeated blocks)
+Seen(q)       == IF q.via = "http" /\ q.dups = "unspec" THEN "n" ELSE q.dups
+WriterKeeps(q) == Seen(q) = "y"
+Shapes(S) == {[scope |-> "entity", rng |-> rg] : rg \in RangesFor(S)}
+             \cup {[scope |-> sc, rng |-> NoRange] : sc \in {"block", "all"}}
 ReqsFor(d, r, p) ==
   LET S == d[Terminal(d, r, p)].sz IN
-  {[path |-> p, scope |-> "entity", rng |-> rg, dups |-> du] : rg \in RangesFor(S), du \in BOOLEAN}
-  \cup {[path |-> p, scope |-> sc, rng |-> NoRange, dups |-> du] : sc \in {"block", "all"}, du \in BOOLEAN}
+  {[path |-> p, scope |-> s.scope, rng |-> s.rng, dups |-> du, via |-> v] : s \in Shapes(S), du \in Policies, v \in Vias}
 
 \* all paths of the tree that resolve: <<>>, <<x>>, <<x,y>>
 AllPaths(d, r) == {<<>>} \cup {<<x>> : x \in {"a", "b", "c"}} \cup {<<x, y>> : x, y \in {"a", "b", "c"}}
